@@ -187,6 +187,16 @@ def entails(cons, goal):
     return not feasible(list(cons) + [neg + Lin({}, Fraction(1, 10 ** 9))])
 
 
+def entails_with_axioms(cons, goal, atoms=()):
+    """cons |= goal under the floor-half and min/max axioms of the atoms that occur"""
+    neg = goal.scale(-1)
+    if _int_coefs(neg):
+        neg = neg + Lin({}, 1)
+    else:
+        neg = neg + Lin({}, Fraction(1, 10 ** 9))
+    return not satisfiable(list(cons) + [neg], atoms)
+
+
 def floor_half_axioms(atoms):
     """h = floor(n/2) for an integer n:  2h <= n <= 2h + 1"""
     out = []
